@@ -482,3 +482,43 @@ B('c05b_binding_groups_renamed_crossed', ['C05'], 'R05.e',
 B('c05b_binding_operator_eats_anything', ['C05'], 'R05.e', (R, _BIND_OP, "                     r'(?P<op>[^>]*?)'\n"))
 B('c05b_type_maps_one_object', ['C05'], 'R05.a', (R, _TYPE_MAPS, "TYPE_CONV_MAP = TYPE_PATT_MAP = {}\n"))
 B('c05b_type_maps_second_is_alias', ['C05'], 'R05.a', (R, _TYPE_MAPS, "TYPE_CONV_MAP = {}\nTYPE_PATT_MAP = TYPE_CONV_MAP\n"))
+
+# ---- ninth batch: R05.i -- the inherit_slashes option is read from a declaration wherever it is handed on ---------------------------
+_ADD_DEFAULT = "        kwargs.setdefault('inherit_slashes', getattr(rf, 'inherit_slashes', True))\n"
+_SUB_DEFAULT = "        kwargs.setdefault('inherit_slashes', self.inherit_slashes)\n"
+T('c05t_add_default_named_first', ['C05'], (A, _ADD_DEFAULT, "        inherit = getattr(rf, 'inherit_slashes', True)\n        kwargs.setdefault('inherit_slashes', inherit)\n"))
+T('c05t_add_default_attribute_when_present', ['C05'],
+  (A, _ADD_DEFAULT, "        if hasattr(rf, 'inherit_slashes'):\n            kwargs.setdefault('inherit_slashes', rf.inherit_slashes)\n"))
+T('c05t_subapp_default_by_membership', ['C05'],
+  (A, _SUB_DEFAULT, "        if 'inherit_slashes' not in kwargs:\n            kwargs['inherit_slashes'] = self.inherit_slashes\n"))
+B('c05b_add_default_literal', ['C05'], 'R05.i', (A, _ADD_DEFAULT, "        kwargs.setdefault('inherit_slashes', True)\n"))
+B('c05b_add_forces_literal', ['C05'], 'R05.i', (A, _ADD_DEFAULT, "        kwargs['inherit_slashes'] = True\n"))
+B('c05b_add_passes_literal_keyword', ['C05'], 'R05.i',
+  (A, _ADD_DEFAULT, ""), (A, "            bound_routes = rf.bind_all(self, **kwargs)\n", "            kwargs.pop('inherit_slashes', None)\n            bound_routes = rf.bind_all(self, inherit_slashes=True, **kwargs)\n"))
+B('c05b_add_defaults_from_literal_table', ['C05'], 'R05.i',
+  (A, _ADD_DEFAULT, "        kwargs.update(inherit_slashes=kwargs.get('inherit_slashes', True))\n"))
+B('c05b_subapp_default_literal', ['C05'], 'R05.i', (A, _SUB_DEFAULT, "        kwargs.setdefault('inherit_slashes', True)\n"))
+_ADD_BOTH = "        kwargs.setdefault('rebind_render', getattr(rf, 'rebind_render', True))\n" + _ADD_DEFAULT
+_SUB_BOTH = "        kwargs.setdefault('rebind_render', self.rebind_render)\n" + _SUB_DEFAULT
+_SUB_LOOP = "            bound_rt = rt.bind(app, **kwargs)\n"
+T('c05t_add_defaults_in_a_loop_over_option_names', ['C05'],
+  (A, _ADD_BOTH, "        for opt_name in ('rebind_render', 'inherit_slashes'):\n            kwargs.setdefault(opt_name, getattr(rf, opt_name, True))\n"))
+T('c05t_add_bound_method_named_first', ['C05'],
+  (A, "        if callable(getattr(rf, 'bind_all', None)):\n            bound_routes = rf.bind_all(self, **kwargs)\n",
+      "        bind_all = getattr(rf, 'bind_all', None)\n        if callable(bind_all):\n            bound_routes = bind_all(self, **kwargs)\n"))
+T('c05t_subapp_defaults_dict_then_update', ['C05'],
+  (A, "        kwargs['prefix'] = self.prefix\n" + _SUB_BOTH, "        bind_kwargs = dict(rebind_render=self.rebind_render, inherit_slashes=self.inherit_slashes)\n"
+      "        bind_kwargs.update(kwargs)\n        bind_kwargs['prefix'] = self.prefix\n"),
+  (A, _SUB_LOOP, "            bound_rt = rt.bind(app, **bind_kwargs)\n"))
+B('c05b_add_loop_defaults_literal', ['C05'], 'R05.i',
+  (A, _ADD_BOTH, "        for opt_name in ('rebind_render', 'inherit_slashes'):\n            kwargs.setdefault(opt_name, True)\n"))
+B('c05b_add_loop_reads_other_attribute', ['C05'], 'R05.i',
+  (A, _ADD_BOTH, "        for opt_name in ('rebind_render', 'inherit_slashes'):\n            kwargs.setdefault(opt_name, getattr(rf, 'rebind_render', True))\n"))
+B('c05b_subapp_defaults_dict_literal', ['C05'], 'R05.i',
+  (A, "        kwargs['prefix'] = self.prefix\n" + _SUB_BOTH, "        bind_kwargs = dict(rebind_render=self.rebind_render, inherit_slashes=True)\n"
+      "        bind_kwargs.update(kwargs)\n        bind_kwargs['prefix'] = self.prefix\n"),
+  (A, _SUB_LOOP, "            bound_rt = rt.bind(app, **bind_kwargs)\n"))
+B('c05b_add_bound_method_literal_default', ['C05'], 'R05.i',
+  (A, _ADD_DEFAULT, "        kwargs.setdefault('inherit_slashes', True)\n"),
+  (A, "        if callable(getattr(rf, 'bind_all', None)):\n            bound_routes = rf.bind_all(self, **kwargs)\n",
+      "        bind_all = getattr(rf, 'bind_all', None)\n        if callable(bind_all):\n            bound_routes = bind_all(self, **kwargs)\n"))
